@@ -319,7 +319,7 @@ def failure_key(job, r):
     if st in ("timeout", "died", "cap"):
         where = (r.get("where") or ["?"])
         last = where[-1] if st == "cap" else (where[0] if where else "?")
-        loop = next((w for w in where if w.endswith(":populate") or w.endswith(":draw")), last)
+        loop = next((w for w in reversed(where) if w.endswith(":populate") or w.endswith(":draw")), last)
         return (f"C20:no-termination:{loop}",
                 f"{sampler} run with {label}: {st} ({r.get('exc_msg', 'wall-clock cap')}) in {loop}; "
                 f"loop stats {r.get('loop_stats')}")
@@ -796,6 +796,11 @@ def covering_array(chk, static):
     chk.notes.append(f"covering array: {len(jobs)} bounded runs in {time.time() - t0:.0f}s")
     pop_lits, ins_lits = [], []
     runtime_attrs = {}
+    lines = next((r.get("loop_lines") for r in results if r.get("loop_lines")), {}) or {}
+    chk.translator["loop_tracer"] = {k: v for k, v in lines.items()}
+    for k, v in lines.items():
+        if k.endswith("_declined"):
+            chk.notes.append(f"loop tracer declined ({k}: {v}): no trace correspondence for that loop in this run; the bounded runs decide alone")
     confirmed = set()
     for job, r in zip(jobs, results):
         chk.evaluations += 1
